@@ -92,7 +92,13 @@ impl Members {
         // update the member, then set the return to "Update".
         // Because a newly inserted member would always have the same
         // timestamp this code doesn't run if we just inserted.
+        let mut previous_addr = None;
         if actor.ts().to_duration() > member.ts.to_duration() {
+            if member.addr != actor.addr() {
+                // the ring was computed from round-trips to the previous address
+                previous_addr = Some(member.addr);
+                member.ring = None;
+            }
             member.addr = actor.addr();
             member.ts = actor.ts();
             member.cluster_id = actor.cluster_id();
@@ -103,6 +109,16 @@ impl Members {
         // recalculate the RTT rings.
         if ret == MemberAddedResult::NewMember {
             self.by_addr.insert(actor.addr(), actor.id());
+            self.recalculate_rings(actor.addr());
+        }
+
+        // If the member moved to a new address, re-index it and
+        // recalculate its ring from the RTTs of that address.
+        if let Some(previous_addr) = previous_addr {
+            if self.by_addr.get(&previous_addr) == Some(&actor_id) {
+                self.by_addr.remove(&previous_addr);
+            }
+            self.by_addr.insert(actor.addr(), actor_id);
             self.recalculate_rings(actor.addr());
         }
 
